@@ -186,6 +186,13 @@ func PubKeyFromCertChain(chain []*x509.Certificate) (ic.PubKey, error) {
 		// Wrap the error to avoid that.
 		return nil, fmt.Errorf("certificate verification failed: %s", err)
 	}
+	// x509.Verify does not check the signature of a certificate that is itself in
+	// the root pool (it is its own chain), so the self-signature has to be checked
+	// explicitly: the certificate must be signed by its own key over the bytes as
+	// they are.
+	if err := cert.CheckSignature(cert.SignatureAlgorithm, cert.RawTBSCertificate, cert.Signature); err != nil {
+		return nil, fmt.Errorf("certificate verification failed: %s", err)
+	}
 
 	var sk signedKey
 	if _, err := asn1.Unmarshal(keyExt.Value, &sk); err != nil {
